@@ -94,6 +94,23 @@ def opt(ctx, name):
     return STime(ctx, ctx.fresh(IntS, name))
 
 
+def own_store_out_of_date(has_store, is_source, mt, A, fresh):
+    """the 'own store' disjunct of the spec function Stale (statement of C05); mt / A / fresh are None or objects with an instant .t.
+    The same function defines the store world of the history lemmas (contracts/history.py checks the agreement)."""
+    if not has_store:
+        return z3.BoolVal(False)
+    if mt is None:
+        return z3.BoolVal(True)
+    guard = (A is not None) or (not is_source)
+    if not guard:
+        return z3.BoolVal(False)
+    mx = mt.t
+    for o in (A, fresh):
+        if o is not None:
+            mx = z3.If(o.t > mx, o.t, mx)
+    return mx > mt.t
+
+
 def run_process(ctx):
     graph, util, errors, _graph = _real()
     import importlib
@@ -212,20 +229,7 @@ def run_process(ctx):
     # ---- spec ----
     has_store = reg_kind != 0
     is_source = reg_kind == 2
-    if not has_store:
-        own = z3.BoolVal(False)
-    elif mt is None:
-        own = z3.BoolVal(True)
-    else:
-        guard = (A is not None) or (not is_source)
-        if not guard:
-            own = z3.BoolVal(False)
-        else:
-            mx = mt.t
-            for o in (A, fresh):
-                if o is not None:
-                    mx = z3.If(o.t > mx, o.t, mx)
-            own = mx > mt.t
+    own = own_store_out_of_date(has_store, is_source, mt, A, fresh)
     spec_stale = z3.Or(anc_stale, own)
     got = stale_slot.value
     ctx.check("post:stale_lookup[n]==Stale(n)", (spec_stale if got is True else z3.Not(spec_stale)) if isinstance(got, bool) else False,
